@@ -541,16 +541,17 @@ def run(ctx: core.Ctx):
         "compile_expression is applied to every one-number spelling below length %d and to every %d-th one from there on "
         "(deterministic stride, counted from the start of each two-character-prefix shard); the lexer value is checked for all"
         % base_stride,
+        "every one-number spelling over the extended alphabet goes through compile_expression (no stride)",
+        "adjacent-literal spellings are evaluated under the default newline_sequence only; values of length 4 (thorough) "
+        "get the quick tier's separator set and two newline sequences",
         "backslash followed by a character that is not a Python escape (deprecated 'invalid escape sequence') is not enumerated",
         "integer literals longer than sys.get_int_max_str_digits() are out of scope",
     ]
-    shards = [("base", "", base_len) + base_stride]
-    shards += [("base", c, base_len) + base_stride for c in NUM_ALPHA]
+    # shards: the one-character spellings, then every two-character prefix with all its extensions
+    shards = [("base", c, base_len) + base_stride for c in NUM_ALPHA]
     shards += [("base", a + b, base_len) + base_stride for a in NUM_ALPHA for b in NUM_ALPHA]
     shards += [("ext", c, ext_len) + ext_stride for c in EXT_ALPHA]
     shards += [("ext", a + b, ext_len) + ext_stride for a in EXT_ALPHA for b in EXT_ALPHA]
-    # drop the degenerate ("base", "", n) shard: the empty spelling is not a literal
-    shards = [s for s in shards if s[1] != ""]
     ctx.pmap(num_shard, shards)
     n_numbers = ctx.counters.get("read_as_one_number", 0)
     if n_numbers < 1000:
